@@ -235,6 +235,8 @@ from . import deps as depschk
 class C05(EmuCheck):
     pid = "C05"
     mc = [("Deps_MC", "Deps_MC")]
+    mc_thorough = [("Deps_MC", "Deps_MC_form"), ("Deps_MC", "Deps_MC_len4")]
+    proofs = ["DepsProof"]      # unbounded block length: a move within the bounds keeps every conflicting pair ordered (TLAPS)
     whys = {"behaviour", "panic", "regs", "noerror", "steperror", "finalregs", "finalmem"}
     level_text = ("The reordering state machine (spec/Deps.tla) is model-checked by TLC: on every block of <= 3-4 abstract "
                   "instructions and every admitted move history, conflicting pairs keep their order and the symbolic "
